@@ -339,8 +339,11 @@ def main(argv=None):
         "violations": len(seen),
     }
     if not args.only and status != 2:
-        os.makedirs(os.path.join(VERIF, "evidence"), exist_ok=True)
-        with open(os.path.join(VERIF, "evidence", f"{pid}.json"), "w") as f:
+        # evidence describes /repo itself; a run against a scratch copy (VERIF_REPO, sensitivity harness) writes elsewhere
+        alt = os.path.realpath(os.environ.get("VERIF_REPO", "/repo")) != "/repo"
+        evdir = os.path.join(VERIF, ".run", "evidence-scratch") if alt else os.path.join(VERIF, "evidence")
+        os.makedirs(evdir, exist_ok=True)
+        with open(os.path.join(evdir, f"{pid}.json"), "w") as f:
             json.dump(ev, f, indent=1, default=str)
     print(
         f"{pid} {args.tier} seed={seed}: {agg['evaluations']} cases, {len(agg['nontrivial'])} distinct non-trivial, "
